@@ -70,7 +70,10 @@ func c14Case(c *core.Ctx, r *core.Rand, i int, caseDir string) {
 			f.state = r.Intn(3) // present more often than missing
 		}
 		var later []string
-		for j := k + 1; j < nf && len(later) < 2; j++ {
+		// only files that live in the top-level template's own directory include others, so that "relative to the
+		// includer" and "relative to the top-level template" name the same file (the statement does not separate them)
+		inTopDir := !strings.Contains(filepath.Clean(args[k]), "/")
+		for j := k + 1; inTopDir && j < nf && len(later) < 2; j++ {
 			if r.Bool() {
 				later = append(later, args[j])
 			}
